@@ -639,3 +639,74 @@ func c18LoadReplay(path string) (*c18Input, error) {
 	}
 	return &rp.Case.Input, nil
 }
+
+// c18HTTPFull posts the multipart request and reports status, body and which operations ran
+func c18HTTPFull(in *c18Input) hObs {
+	gw, err := c18Gateway()
+	if err != nil {
+		return hObs{Panic: "harness: " + err.Error()}
+	}
+	opsJSON := []interface{}{}
+	for i, o := range in.Ops {
+		m := map[string]interface{}{"query": fmt.Sprintf("query op%d { hello }", i), "operationName": fmt.Sprintf("op%d", i)}
+		if o.Vars != nil {
+			m["variables"] = o.Vars
+		}
+		opsJSON = append(opsJSON, m)
+	}
+	var opsBytes []byte
+	if in.Batch {
+		opsBytes, _ = json.Marshal(opsJSON)
+	} else {
+		opsBytes, _ = json.Marshal(opsJSON[0])
+	}
+	fmap := map[string][]string{}
+	for i, f := range in.Files {
+		fmap[strconv.Itoa(i)] = f.Paths
+	}
+	mapBytes, _ := json.Marshal(fmap)
+	var body bytes.Buffer
+	w := multipart.NewWriter(&body)
+	fw, _ := w.CreateFormField("operations")
+	fw.Write(opsBytes)
+	fw, _ = w.CreateFormField("map")
+	fw.Write(mapBytes)
+	for i, f := range in.Files {
+		fw, _ = w.CreateFormFile(strconv.Itoa(i), f.Name)
+		fw.Write([]byte("content"))
+	}
+	w.Close()
+	req := httptest.NewRequest(http.MethodPost, "/graphql", &body)
+	req.Header.Set("Content-Type", w.FormDataContentType())
+	rec := httptest.NewRecorder()
+	c18Mu.Lock()
+	c18Seen = map[string]map[string]interface{}{}
+	c18Called = 0
+	c18Mu.Unlock()
+	obs := hObs{}
+	func() {
+		defer func() {
+			if r := recover(); r != nil {
+				obs.Panic = fmt.Sprint(r)
+			}
+		}()
+		gw.GraphQLHandler(rec, req.WithContext(context.Background()))
+	}()
+	obs.Status = rec.Code
+	var v interface{}
+	if err := json.Unmarshal(rec.Body.Bytes(), &v); err != nil {
+		obs.NotJS = true
+		obs.Body = rec.Body.String()
+	} else {
+		// uploads are not JSON: the recording executor answers {"hello": "x"} only
+		obs.Body = v
+	}
+	c18Mu.Lock()
+	for i := range in.Ops {
+		_, ok := c18Seen[fmt.Sprintf("op%d", i)]
+		obs.Ran = append(obs.Ran, ok)
+	}
+	obs.Calls = c18Called
+	c18Mu.Unlock()
+	return obs
+}
